@@ -167,6 +167,19 @@ func RoundTrip(file *Tree) (*Tree, error) {
 	if !ok {
 		return nil, fmt.Errorf("not a file: %T", v.Interface())
 	}
+	// go/printer adds the parentheses an operand needs everywhere except
+	// below a StarExpr (the parser never produces *X with a binary X without
+	// a ParenExpr). The expected tree means "*(a + b)": say so, or printing
+	// it would silently turn it into "(*a) + b" - the very change of meaning
+	// this round trip must not hide.
+	ast.Inspect(f, func(n ast.Node) bool {
+		if st, ok := n.(*ast.StarExpr); ok {
+			if _, bin := st.X.(*ast.BinaryExpr); bin {
+				st.X = &ast.ParenExpr{X: st.X}
+			}
+		}
+		return true
+	})
 	var buf bytes.Buffer
 	if err := func() (err error) {
 		defer func() {
